@@ -129,7 +129,12 @@ class Repartition(Expr):
 
                     # Ensure the computed divisions are unique
                     divisions = list(unique(divisions[:-1])) + [divisions[-1]]
-                    return RepartitionDivisions(df, divisions, self.force)
+                    if len(divisions) == npartitions + 1:
+                        return RepartitionDivisions(df, divisions, self.force)
+                    # The interpolated divisions collapsed (not enough distinct
+                    # values): split by position so that exactly
+                    # ``npartitions`` partitions are produced
+                    return RepartitionToMore(self.frame, self.operand("new_partitions"))
                 else:
                     return RepartitionToMore(self.frame, self.operand("new_partitions"))
         elif self.new_divisions:
